@@ -12,6 +12,11 @@ fn random_float(min: Value, max: Value) -> Resolved {
         return Err("max must be greater than min".into());
     }
 
+    // Sampling from a range with an infinite bound panics inside `rand`.
+    if !(min.is_finite() && max.is_finite()) {
+        return Err("min and max must be finite".into());
+    }
+
     let f: f64 = rand::rng().random_range(min..max);
 
     Ok(Value::Float(NotNan::new(f).expect("always a number")))
@@ -23,6 +28,10 @@ fn get_range(min: Value, max: Value) -> std::result::Result<Range<f64>, &'static
 
     if max <= min {
         return Err(INVALID_RANGE_ERR);
+    }
+
+    if !(min.is_finite() && max.is_finite()) {
+        return Err("min and max must be finite");
     }
 
     Ok(min..max)
